@@ -84,7 +84,10 @@ def batches(draw):
             entries[j] = dict(kind="malformed", game=f[4], rule=f[0], twin_of=i)
     perm = list(draw(st.permutations(list(range(k)))))
     sub = [i for i in range(k) if draw(st.booleans())] or [draw(st.integers(0, k - 1))]
-    return dict(names=names, games=entries, perm=perm, subset=sub)
+    # some descriptions already carry a 'prune_states' key (a legal constructor keyword, e.g. left behind by an earlier
+    # batch run on the same dict): the batch driver sets the mode itself, so the key must make no difference
+    own = [draw(st.sampled_from((None, None, None, True, False))) for _ in range(k)]
+    return dict(names=names, games=entries, perm=perm, subset=sub, own_prune_key=own)
 
 
 def phases(tier):
@@ -193,6 +196,8 @@ def check_case(case):
     if any("twin_of" in e for e in entries):
         v.cls("has_twin_of_another_game")
     v.cls(f"games={k}")
+    if any(x is not None for x in case.get("own_prune_key") or []):
+        v.cls("description_carries_prune_states_key")
     v.nontrivial = nt
 
     orders = [("as-drawn", list(range(k))), ("permuted", case["perm"]), ("subset", case["subset"])]
@@ -201,6 +206,10 @@ def check_case(case):
         with budgeted_many([f for f in facts if f is not None], extra_modules=(r.conditionalrewards,)):
             for label, order in orders:
                 d = {names[i]: copy.deepcopy(entries[i]["game"]) for i in order}
+                for i in order:
+                    key = (case.get("own_prune_key") or [None] * k)[i]
+                    if key is not None and isinstance(d[names[i]], dict):
+                        d[names[i]]["prune_states"] = key
                 try:
                     results[label] = (order, r.conditionalrewards.run_games(d))
                 except (BudgetExceeded, SkipSolve):
